@@ -455,8 +455,9 @@ OpenSelves(s) == {s.stack[i].o : i \in {j \in DOMAIN s.stack : s.stack[j].k = "c
 \* objects whose fields the program can name: through a handle, a moved-out value, or `self` of a running callback
 Acc(s) == {o \in Objs : s.roots[o] > 0 \/ s.moved[o]} \cup OpenSelves(s)
 Full(s) == CbTop(s) \in {"", "finalize", "closure", "action"}   \* full vocabulary (not in Drop impls)
-MapGone(s, o) == ~CLEAN \/ (~s.hasmap[o] /\ s.box[MapOf(o)] = "free" /\ ~s.meta[MapOf(o)].alive /\ s.slots[o] = <<>>
-                            /\ \A c \in DOMAIN s.cls : s.cls[c] # o)
+MapGone(s, o) == IF ~CLEAN THEN TRUE
+                 ELSE (~s.hasmap[o] /\ s.box[MapOf(o)] = "free" /\ ~s.meta[MapOf(o)].alive /\ s.slots[o] = <<>>
+                       /\ \A c \in DOMAIN s.cls : s.cls[c] # o)
 FreeId(s, o) == s.box[o] = "free" /\ ~s.meta[o].alive /\ MapGone(s, o) /\ s.roots[o] = 0 /\ s.wroots[o] = 0 /\ ~s.moved[o]
                 /\ \A a \in Objs : o \notin Rng(s.fs[a]) \cup Rng(s.fp[a]) \cup Rng(s.fw[a]) \cup (IF CLEAN THEN CapsOf(s, a) ELSE {})
                 /\ o \notin {s.stack[i].o : i \in DOMAIN s.stack}
